@@ -237,6 +237,7 @@ Definition hdr_unpack (data : bytes) : res PduHeader :=
 
 (* AbstractPduBase.header_len_from_raw *)
 Definition header_len_from_raw (data : bytes) : res Z :=
+  if len data <? FIXED_LENGTH then Err ETooShort else
   do d3 <- py_get data 3;
   let entity_id_len := Z.land (Z.shiftr d3 4) 7 + 1 in
   let seq_num_len := Z.land d3 7 + 1 in
